@@ -12,7 +12,6 @@ import (
 	"fmt"
 	"go/ast"
 	"go/constant"
-	"go/token"
 	"go/types"
 	"reflect"
 	"regexp"
@@ -378,110 +377,84 @@ func checkAppOrder(w *World, r *Report) {
 	if modName == "" {
 		fatalf("types.ModuleName constant not found")
 	}
-	// resolve an expression to the list of constant strings it denotes
-	var listOf func(e ast.Expr, depth int) ([]string, bool)
-	listOf = func(e ast.Expr, depth int) ([]string, bool) {
-		if depth > 4 {
-			return nil, false
+	// The order lists and module configurations are read from the values the app package actually builds — stores into
+	// the runtime module's fields and into ModuleConfig.Name, in the package initialiser and every function of the
+	// package, each in its calling context — so that it does not matter whether the lists are literals, package
+	// variables, or assembled by helper functions with append.
+	_ = info
+	tm := NewTerms(w)
+	sp := w.SSA[appPath]
+	var roots []*ssa.Function
+	if sp != nil {
+		if f := sp.Func("init"); f != nil {
+			roots = append(roots, f)
 		}
-		switch x := e.(type) {
-		case *ast.CompositeLit:
-			var out []string
-			for _, el := range x.Elts {
-				s, ok := constString(info, el)
-				if !ok {
-					return nil, false
-				}
-				out = append(out, s)
-			}
-			return out, true
-		case *ast.Ident:
-			obj := info.Uses[x]
-			if obj == nil {
-				return nil, false
-			}
-			// find the defining ValueSpec
-			for _, f := range app.Syntax {
-				for _, d := range f.Decls {
-					gd, ok := d.(*ast.GenDecl)
-					if !ok {
-						continue
-					}
-					for _, sp := range gd.Specs {
-						vs, ok := sp.(*ast.ValueSpec)
-						if !ok {
-							continue
-						}
-						for i, nm := range vs.Names {
-							if info.Defs[nm] == obj && i < len(vs.Values) {
-								return listOf(vs.Values[i], depth+1)
-							}
-						}
-					}
-				}
+		var names []string
+		for n := range sp.Members {
+			names = append(names, n)
+		}
+		sort.Strings(names)
+		for _, n := range names {
+			if f, ok := sp.Members[n].(*ssa.Function); ok && f.Blocks != nil && n != "init" {
+				roots = append(roots, f)
 			}
 		}
-		return nil, false
 	}
 	found := map[string]bool{}
-	var rtPos token.Pos
+	inList := map[string]bool{}
+	where := map[string]string{}
+	size := map[string]int{}
+	unresolved := map[string]string{}
 	cfgEntry := false
-	for _, f := range app.Syntax {
-		ast.Inspect(f, func(n ast.Node) bool {
-			cl, ok := n.(*ast.CompositeLit)
+	rtWhere := appPath
+	seenStore := map[string]bool{}
+	tm.walkContexts(roots, func(fr *Frame, in ssa.Instruction) {
+		st, ok := in.(*ssa.Store)
+		if !ok {
+			return
+		}
+		fa, ok := st.Addr.(*ssa.FieldAddr)
+		if !ok || structOf(fa.X.Type()) == nil {
+			return
+		}
+		fname := structOf(fa.X.Type()).Field(fa.Field).Name()
+		switch {
+		case isNamed(fa.X.Type(), runtimeAPI, "Module") && (fname == "BeginBlockers" || fname == "EndBlockers" || fname == "InitGenesis"):
+			rtWhere = w.instrPos(in)
+			k := fname + "|" + fr.id
+			if seenStore[k] {
+				return
+			}
+			seenStore[k] = true
+			found[fname] = true
+			where[fname] = w.instrPos(in)
+			es, ok := listElems(w, tm, tm.OperandAt(fr, in, st.Val), 0)
 			if !ok {
-				return true
+				unresolved[fname] = w.instrPos(in)
+				return
 			}
-			t := info.TypeOf(cl)
-			if isNamed(t, runtimeAPI, "Module") {
-				rtPos = cl.Pos()
-				for _, el := range cl.Elts {
-					kv, ok := el.(*ast.KeyValueExpr)
-					if !ok {
-						continue
-					}
-					k, _ := kv.Key.(*ast.Ident)
-					if k == nil {
-						continue
-					}
-					switch k.Name {
-					case "BeginBlockers", "EndBlockers", "InitGenesis":
-						lst, ok := listOf(kv.Value, 0)
-						if !ok {
-							r.Fail("APP-ORDER", "order:"+k.Name, w.pos(kv.Pos()), "module order list is a constant string list", "cannot resolve the list statically")
-							found[k.Name] = true
-							continue
-						}
-						in := false
-						for _, s := range lst {
-							if s == modName {
-								in = true
-							}
-						}
-						found[k.Name] = true
-						r.Check(in, "APP-ORDER", "order:"+k.Name, w.pos(kv.Pos()),
-							fmt.Sprintf("%q is an element of the runtime module's %s (%d entries)", modName, k.Name, len(lst)),
-							fmt.Sprintf("%q is missing from %s: the runtime refuses to start (module implements the corresponding interface) or never runs the module's block hook / genesis", modName, k.Name))
-					}
+			size[fname] = len(es)
+			for _, e := range es {
+				if s, ok := constStringTerm(e.t); ok && s == modName && !e.cond {
+					inList[fname] = true
 				}
 			}
-			if isNamed(t, appAPI, "ModuleConfig") {
-				for _, el := range cl.Elts {
-					if kv, ok := el.(*ast.KeyValueExpr); ok {
-						if k, _ := kv.Key.(*ast.Ident); k != nil && k.Name == "Name" {
-							if s, ok := constString(info, kv.Value); ok && s == modName {
-								cfgEntry = true
-							}
-						}
-					}
-				}
+		case isNamed(fa.X.Type(), appAPI, "ModuleConfig") && fname == "Name":
+			if s, ok := constStringTerm(tm.OperandAt(fr, in, st.Val)); ok && s == modName {
+				cfgEntry = true
 			}
-			return true
-		})
-	}
+		}
+	})
 	for _, k := range []string{"BeginBlockers", "EndBlockers", "InitGenesis"} {
-		if !found[k] {
-			r.Fail("APP-ORDER", "order:"+k, w.pos(rtPos), "runtime module config sets "+k, "list not found in the runtime module literal")
+		switch {
+		case !found[k]:
+			r.Fail("APP-ORDER", "order:"+k, rtWhere, "runtime module config sets "+k, "list not found in the runtime module configuration")
+		case unresolved[k] != "" && !inList[k]:
+			r.Fail("APP-ORDER", "order:"+k, unresolved[k], "module order list is a constant string list", "cannot resolve the list statically")
+		default:
+			r.Check(inList[k], "APP-ORDER", "order:"+k, where[k],
+				fmt.Sprintf("%q is an element of the runtime module's %s (%d entries)", modName, k, size[k]),
+				fmt.Sprintf("%q is missing from %s: the runtime refuses to start (module implements the corresponding interface) or never runs the module's block hook / genesis", modName, k))
 		}
 	}
 	r.Check(cfgEntry, "APP-ORDER", "moduleconfig", appPath, fmt.Sprintf("app config has a ModuleConfig entry named %q", modName), "no ModuleConfig entry: the module is not part of the app")
